@@ -20,6 +20,8 @@ import Driver.C16
 import Driver.C11
 import Driver.C14
 import Driver.C04
+import Driver.C03
+import Driver.C02
 
 open Driver
 
@@ -42,6 +44,8 @@ def dispatch (prop : String) (toks : List String) : String :=
   | "C11" => Driver.C11.handle toks
   | "C14" => Driver.C14.handle toks
   | "C04" => Driver.C04.handle toks
+  | "C03" => Driver.C03.handle toks
+  | "C02" => Driver.C02.handle toks
   | _ => "bad-prop"
 
 partial def loop (hin hout : IO.FS.Stream) : IO Unit := do
